@@ -840,6 +840,18 @@ func ext۰Builder۰Reset(fr *frame, args []value) value {
 
 // ---------------------------------------------------------------- fmt / errors
 
+// findMethod is a non-panicking method lookup by name on a dynamic type.
+func (i *interpreter) findMethod(t types.Type, name string) *ssa.Function {
+	ms := i.prog.MethodSets.MethodSet(t)
+	for k := 0; k < ms.Len(); k++ {
+		sel := ms.At(k)
+		if sel.Obj().Name() == name {
+			return i.prog.MethodValue(sel)
+		}
+	}
+	return nil
+}
+
 // nativeArg converts a concrete value to a Go value printable by fmt.
 func (i *interpreter) nativeArg(v value) (interface{}, bool) {
 	switch v := v.(type) {
@@ -848,11 +860,11 @@ func (i *interpreter) nativeArg(v value) (interface{}, bool) {
 			return nil, true
 		}
 		// error / Stringer values: call their method
-		if m := i.prog.LookupMethod(v.t, nil, "Error"); m != nil {
+		if m := i.findMethod(v.t, "Error"); m != nil {
 			r := callSSA(i, nil, token.NoPos, m, []value{v.v}, nil)
 			return i.nativeArg(r)
 		}
-		if m := i.prog.LookupMethod(v.t, nil, "String"); m != nil && len(m.Params) == 1 {
+		if m := i.findMethod(v.t, "String"); m != nil && len(m.Params) == 1 {
 			r := callSSA(i, nil, token.NoPos, m, []value{v.v}, nil)
 			return i.nativeArg(r)
 		}
@@ -932,7 +944,7 @@ func (i *interpreter) symFormat(format string, args []value) (value, bool) {
 					emit("<nil>")
 					continue
 				}
-				if m := i.prog.LookupMethod(itf.t, nil, "Error"); m != nil {
+				if m := i.findMethod(itf.t, "Error"); m != nil {
 					a = callSSA(i, nil, token.NoPos, m, []value{itf.v}, nil)
 				}
 			}
@@ -1029,7 +1041,7 @@ func ext۰errors۰Is(fr *frame, args []value) value {
 				return true
 			}
 		}
-		m := i.prog.LookupMethod(err.t, nil, "Unwrap")
+		m := i.findMethod(err.t, "Unwrap")
 		if m == nil || m.Signature.Results().Len() != 1 {
 			return false
 		}
